@@ -14,6 +14,7 @@ mod psetview;
 mod scalar;
 mod sha256c;
 mod sighash;
+mod taproot;
 mod tok;
 mod util;
 mod wire;
@@ -70,6 +71,9 @@ fn main() {
         ("psetcodec", "record") => psetcodec::record(rest, &mut out),
         ("psetmerge", "replay") => psetmerge::replay(rest, &mut out),
         ("psetmerge", "keysources") => psetmerge::keysources(rest, &mut out),
+        ("taproot", "replay") => taproot::replay(rest, &mut out),
+        ("taproot", "deep") => taproot::deep(rest, &mut out),
+        ("taproot", "huffman") => taproot::huffman(rest, &mut out),
         ("dynafed", "record") => dynafed::record(rest, &mut out),
         (m, c) => {
             eprintln!("unknown command {} {}", m, c);
